@@ -71,7 +71,9 @@ def attribute(case, role, i, after_error):
         elif n == "update":
             props = ["C03"]
         elif n == "ins":
-            props = ["C11", "C01"]
+            # what an insert stored: through a handle / with a measurement argument it is C10's
+            # "stores the point under that measurement name"; after a raised insert it is C11's
+            props = ["C10"] if inner(op)[1] != "~" else ["C01"]
         else:
             props = ["C15", "C06"]
         if after_error:
@@ -89,7 +91,7 @@ def attribute(case, role, i, after_error):
     elif n == "update":
         props = ["C03"]
     elif n == "ins":
-        props = ["C11"]
+        props = ["C11", "C14"]
     else:
         props = ["C06"]
     if via:
